@@ -191,6 +191,19 @@ func (s16 *bootState16) setNext(s snap.PlaceInfo, bootCtx NextBootContext) (rbi 
 		toCommit[goodBootVar] = nextBoot
 		snapMode = DefaultStatus
 		nextBoot = ""
+	} else if env["snap_mode"] != TryStatus {
+		// We are starting a try while no try of the other boot snap is
+		// pending (snap_mode is shared by both): whatever is left in
+		// its snap_try_* variable was either withdrawn (snap_mode got
+		// reset by a later SetNextBoot) or already had its boot
+		// (snap_mode is "trying" and the boot was not marked
+		// successful). Drop it, otherwise the bootloader would boot
+		// that revision again together with this try.
+		otherTryBootVar := "snap_try_core"
+		if s16.varSuffix == "core" {
+			otherTryBootVar = "snap_try_kernel"
+		}
+		toCommit[otherTryBootVar] = ""
 	}
 
 	toCommit["snap_mode"] = snapMode
